@@ -82,6 +82,17 @@ Section RangesP.
     - intros H; destruct (IH H) as [t [rs' [H1 H2]]]. exists t, rs'; split; auto.
   Qed.
 
+  Theorem validate_sound_full gp ps :
+    validate gp ps = VOk <->
+    forall p t, In (p, t) ps ->
+      exists rs, lookup p gp = Some rs /\
+        forall v, In v (flatten K t) ->
+          exists r, In r rs /\ leb (sub (lo r) (atol r)) v = true /\ leb v (add (hi r) (atol r)) = true.
+  Proof.
+    rewrite validate_ok. split; intros H p t Hin; destruct (H p t Hin) as [rs [Hl Hv]];
+      exists rs; split; auto; intros v Hvin; apply (in_ranges_spec rs v); auto.
+  Qed.
+
   Theorem validate_parameters_none ps : validate_parameters None ps = VOk.
   Proof. reflexivity. Qed.
 End RangesP.
@@ -339,4 +350,11 @@ Theorem insert_offsets_id circ : exists uo, insert_offsets circ circ = Some (cir
 Proof.
   induction circ as [|c circ [uo IH]]; simpl; [eauto|].
   rewrite ops_equal_refl, IH. destruct (b_off c); eauto.
+Qed.
+
+Theorem insert_offsets_full circ seq out uo : insert_offsets circ seq = Some (out, uo) ->
+  subseq seq out /\ length circ <= length out /\
+  forall i c, nth_error circ i = Some c -> exists o, nth_error out i = Some o /\ ops_equal c o = true.
+Proof.
+  intros H. split; [exact (insert_offsets_subseq circ seq out uo H) | exact (insert_offsets_matches circ seq out uo H)].
 Qed.
